@@ -341,13 +341,28 @@ struct Checker {
         });
     }
 
-    void family(const ks::FamilySpec &spec, size_t eps, int with_pgm) {
+    // builds made earlier in this process with other thread counts (the chunk count must be a function of the current environment only)
+    void silent_build(const std::vector<K> &data, size_t eps, int chunks) {
+        verif::chunks = chunks; verif::env = 0;
+        auto in = [&](size_t i) { return data[i]; };
+        size_t cnt = 0; auto out = [&](const CS &) { ++cnt; };
+        try { pgm::internal::make_segmentation_par(data.size(), eps, in, out); } catch (...) {}
+    }
+    void family_history(const std::vector<long> &seq, ks::FamilySpec spec, size_t eps) {
+        std::string prior;
+        for (long p : seq) {
+            spec.chunks = p;
+            family(spec, eps, 0, prior.empty() ? "" : "prior_chunks=" + prior + " ");
+            prior += (prior.empty() ? "" : ".") + std::to_string(p);
+        }
+    }
+    void family(const ks::FamilySpec &spec, size_t eps, int with_pgm, const std::string &prefix = "") {
         std::vector<K> data, queries;
         if (!ks::generate_family<K>(spec, eps, data, queries)) return;
         verif::chunks = int(spec.chunks);
         verif::env = spec.chunks > 1 ? int((spec.word + spec.seam + spec.rep + spec.n) % 3) : 0;   // oversubscribed / undersubscribed environments
         run.add(cn.family);
-        std::string desc = "family=" + spec.str();
+        std::string desc = prefix + "family=" + spec.str();
         check_direct(data, eps, true, desc);
         if (with_pgm && prop == 4 && !is_float) {
             if (eps == 1) check_pgm<1, 1>(data, desc);
@@ -364,7 +379,8 @@ struct Checker {
         if (m.count("family")) {
             auto spec = ks::FamilySpec::parse(m.at("family"));
             if (!ks::generate_family<K>(spec, eps, data, q)) { fprintf(stderr, "cannot regenerate family\n"); exit(2); }
-            verif::chunks = int(spec.chunks); desc = "family=" + m.at("family");
+            if (m.count("prior_chunks")) for (auto &pc : mc::split(m.at("prior_chunks"), '.')) silent_build(data, eps, atoi(pc.c_str()));
+            verif::chunks = int(spec.chunks); desc = (m.count("prior_chunks") ? "prior_chunks=" + m.at("prior_chunks") + " " : "") + "family=" + m.at("family");
         } else { data = mc::parse_keys<K>(m.at("data")); desc = "data=" + m.at("data"); if (m.count("chunks")) verif::chunks = atoi(m.at("chunks").c_str()); }
         if (m.count("env")) verif::env = atoi(m.at("env").c_str());
         printf("replay: key=%s eps=%zu mode=%s n=%zu chunks=%d env=%d\n", kname(), eps, mode.c_str(), data.size(), verif::chunks, verif::env);
@@ -391,6 +407,10 @@ template<typename K> void run_task(Run &run, Cn &cn, int prop, const Task &t) {
             if (w == t.w_lo + 9) run.sample(ck.case_of("family=" + s.str(), t.eps, "par"));
             ck.family(s, t.eps, w % 16 == 0);
         }
+    } else if (t.kind == 4) {
+        // one process, several builds with different thread counts in a row
+        ks::FamilySpec s; s.kind = "seam"; s.n = t.n; s.seam = 0; s.word = t.w_lo;
+        ck.family_history({8, 1, 2, 20, 3, 8, 1}, s, t.eps);
     } else if (t.kind == 3) {
         for (long so : {-2L, -1L, 0L, 1L}) for (long eo : {-3L, -2L, -1L, 0L, 1L}) {
             if (run.deadline_passed()) break;
@@ -476,6 +496,8 @@ int main(int argc, char **argv) {
                     if (pp == 20 && !thorough && j > 2 && j < 17) continue;
                     for (long len : {1L, 2L}) { if (j + len > pp) continue; Task t; t.key = k; t.kind = 3; t.eps = 1; t.n = 32768; t.p = pp; t.seam = j; t.rep = len; tasks.push_back(t); }
                 }
+            // a history of builds with changing thread counts inside one process
+            for (long w : {0L, 1365L, 2730L}) { Task t; t.key = k; t.kind = 4; t.eps = 1; t.n = 32768; t.w_lo = w; tasks.push_back(t); }
             // below the chunking threshold the builder must stay sequential whatever the thread count
             for (long nn : {32767L, 20000L, 8192L, 4096L}) for (long p : {2L, 4L, 15L, 20L})
                 for (long w = 0; w < 4096; w += 1024) { Task t; t.key = k; t.kind = 1; t.eps = 1; t.n = nn; t.p = p; t.seam = 0; t.w_lo = w + 77; t.w_hi = w + (thorough ? 93 : 81); tasks.push_back(t); }
@@ -515,7 +537,7 @@ int main(int argc, char **argv) {
     ev.states_counter = "arrays_segmented"; ev.transitions_counter = prop == 3 ? "point_vs_line_checks" : "maximality_checks_against_exact_oracle";
     ev.nontrivial_counter = "arrays_with_2plus_distinct_keys";
     ev.rule = std::string("every non-decreasing key sequence of length 1..") + std::to_string(N) + " over each 10-value palette, key types u32/i32/u64/i64/u8/i16" + (prop == 3 ? "/float/double" : "") +
-              ", epsilon 0..3, fed to make_segmentation; seam-window family (n=2^15(+delta), all 4096 six-letter words over {dup,+1,+2,+65536} at every chunk seam) through make_segmentation_par with the chunk count answered by the harness (processors = threads, more threads than processors, fewer threads than processors: c = min of the two); block grammar (1 block x rep, 2 blocks) for epsilon in {1,8,64" + (thorough ? ",1024" : "") + "}. " +
+              ", epsilon 0..3, fed to make_segmentation; seam-window family (n=2^15(+delta), all 4096 six-letter words over {dup,+1,+2,+65536} at every chunk seam) through make_segmentation_par with the chunk count answered by the harness (also as a history 8,1,2,20,3,8,1 of thread counts inside one process; processors = threads, more threads than processors, fewer threads than processors: c = min of the two); block grammar (1 block x rep, 2 blocks) for epsilon in {1,8,64" + (thorough ? ",1024" : "") + "}. " +
               (prop == 3 ? "Each point recorded by hook H1 is evaluated against the line reported for its segment (exact 128-bit rational arithmetic for integer keys, long double + stated tolerance for floating keys). "
                          : "Each builder call's partition is compared with the greedy partition computed by an exact rational stabbing-line oracle (pairwise slope bounds), plus the optimum count, the 2*epsilon spacing of segment starts, and every upper-level call inside PGMIndex builds. ") +
               "State = one segmented array; transition = one point checked; non-trivial = at least two distinct keys.";
